@@ -1,31 +1,34 @@
 package sam
 
 import (
-	"encoding/csv"
+	"bufio"
 	"io"
 	"iter"
 	"strings"
 
 	"github.com/fluhus/gostuff/aio"
-	"github.com/fluhus/gostuff/iterx"
 )
 
 // ReaderHeader iterates over SAM or header entries in a reader.
 func ReaderHeader(r io.Reader) iter.Seq2[SAMOrHeader, error] {
 	return func(yield func(SAMOrHeader, error) bool) {
-		csvReader := iterx.CSVReader(r, func(r *csv.Reader) {
-			r.Comma = '\t'
-			r.FieldsPerRecord = -1 // Allow variable number of fields.
-			r.LazyQuotes = true
-		})
-		for line, err := range csvReader {
-			// Error case.
-			if err != nil {
-				if !yield(SAMOrHeader{}, err) {
-					break
-				}
-				continue
+		br := bufio.NewReader(r)
+		for {
+			// SAM has no quoting, so lines are split on tabs as they are.
+			text, rerr := br.ReadString('\n')
+			if rerr != nil && rerr != io.EOF {
+				// Read failure. Drop the partial line.
+				yield(SAMOrHeader{}, rerr)
+				return
 			}
+			text = strings.TrimSuffix(strings.TrimSuffix(text, "\n"), "\r")
+			if text == "" {
+				if rerr == io.EOF {
+					return
+				}
+				continue // Skip empty lines.
+			}
+			line := strings.Split(text, "\t")
 			// Header line case.
 			if len(line) > 0 && strings.HasPrefix(line[0], "@") {
 				h := strings.Join(line, "\t")
@@ -38,6 +41,9 @@ func ReaderHeader(r io.Reader) iter.Seq2[SAMOrHeader, error] {
 			s, err := parseLine(line)
 			if !yield(SAMOrHeader{S: s}, err) {
 				break
+			}
+			if rerr == io.EOF {
+				return
 			}
 		}
 	}
